@@ -283,6 +283,8 @@ Proof.
   { eapply ev_G; [| | | | | | | |exact HG]; try reflexivity.
     - intros c' r' [E|[]]. injection E as <- <-. destruct Hr as [->|Hr]; auto. right. apply in_or_app. now left.
     - intros c' r' [E|[]]. discriminate E. }
+  destruct (mem c (cancelled s)).
+  { injection H as <- <-. eapply quiet_RP; [| | | | | | |exact HG]; try reflexivity. intros x [<-|[]]. exact I. }
   destruct (mem c (follows s)).
   - destruct (nested q s) as [s1 e1] eqn:E1. injection H as <- <-.
     change (EResult c r :: e1) with ([EResult c r] ++ e1). rewrite app_assoc. eapply nested_G; eauto.
@@ -411,21 +413,24 @@ Proof.
     + eapply deliver_box_G; eauto.
 Qed.
 
-Lemma fail_all_quiet : forall l fol n e n', fail_all l fol n = (e, n') -> quiet e.
+Lemma fail_all_quiet : forall l fol can n e n', fail_all l fol can n = (e, n') -> quiet e.
 Proof.
-  induction l as [|[t c] l IH]; intros fol n e n' H; cbn in H.
+  induction l as [|[t c] l IH]; intros fol can n e n' H; cbn in H.
   - injection H as <- <-. intros x [].
-  - destruct (mem c fol).
-    + destruct (fail_all l fol (S n)) as [e2 n2] eqn:E2. injection H as <- <-.
-      intros x [<-|[<-|[<-|Hx]]]; cbn; auto. exact (IH _ _ _ _ E2 x Hx).
-    + destruct (fail_all l fol n) as [e2 n2] eqn:E2. injection H as <- <-.
-      intros x [<-|Hx]; cbn; auto. exact (IH _ _ _ _ E2 x Hx).
+  - destruct (mem c can).
+    { destruct (fail_all l fol can n) as [e2 n2] eqn:E2. injection H as <- <-.
+      intros x [<-|Hx]; cbn; auto. exact (IH _ _ _ _ _ E2 x Hx). }
+    destruct (mem c fol).
+    + destruct (fail_all l fol can (S n)) as [e2 n2] eqn:E2. injection H as <- <-.
+      intros x [<-|[<-|[<-|Hx]]]; cbn; auto. exact (IH _ _ _ _ _ E2 x Hx).
+    + destruct (fail_all l fol can n) as [e2 n2] eqn:E2. injection H as <- <-.
+      intros x [<-|Hx]; cbn; auto. exact (IH _ _ _ _ _ E2 x Hx).
 Qed.
 
 Lemma lose_G : forall s l s' e, Forall (good_pnd l) (pending s) -> R l -> P l -> lose s = (s', e) -> GS s' (l ++ e).
 Proof.
   intros s l s' e GP HR HP H. unfold lose in H. destruct (fail_all _ _ _) as [e1 n1] eqn:E1. injection H as <- <-.
-  destruct (RP_quiet l e1 HR HP (fail_all_quiet _ _ _ _ _ E1)) as [HR' HP'].
+  destruct (RP_quiet l e1 HR HP (fail_all_quiet _ _ _ _ _ _ E1)) as [HR' HP'].
   unfold GS, GH, G, J2c, chanH. cbn. split; [intros Hf; discriminate Hf|]. split; [|split; auto].
   repeat split; try constructor. eapply Forall_impl; [|exact GP]. intros; now apply good_pnd_mono.
 Qed.
@@ -527,7 +532,7 @@ Qed.
 
 Lemma step_G : forall s l o, K s -> GS s l -> GS (fst (step s o)) (l ++ snd (step s o)).
 Proof.
-  intros s l o HK HG. destruct o as [p k f|d n|i o|]; cbn [step].
+  intros s l o HK HG. destruct o as [p k f|d n|i o|c|]; cbn [step].
   - (* call *)
     set (s0 := if f then set_follows (ncalls s :: follows s) s else s).
     assert (G0 : GS s0 l) by (unfold s0; destruct f; [eapply GS_same; [| | | | | |exact HG]; reflexivity | exact HG]).
@@ -559,6 +564,16 @@ Proof.
         -- eapply Forall_impl; [|exact GB]. intros; now apply good_box_mono.
         -- apply Forall_remove_nth. eapply Forall_impl; [|exact GP]. intros; now apply good_pnd_mono.
     + eapply quiet_RP; [| | | | | | |exact HG]; try reflexivity. intros x [<-|[]]. exact I.
+  - (* the application cancels a call: the dispatcher's state is untouched *)
+    destruct (mem c (cancelled s)); [cbn [fst snd]; eapply quiet_RP; [| | | | | | |exact HG]; try reflexivity; intros x [<-|[]]; exact I|].
+    destruct (if mem c (map snd (outA s)) then Some false else if mem c (map snd (outB s)) then Some true else None) as [p|];
+      [|cbn [fst snd]; eapply quiet_RP; [| | | | | | |exact HG]; try reflexivity; intros x [<-|[]]; exact I].
+    assert (G0 : GS (set_cancelled (c :: cancelled s) s) (l ++ [ECancelled c])).
+    { eapply quiet_RP; [| | | | | | |exact HG]; try reflexivity. intros x [<-|[]]. exact I. }
+    assert (K0 : K (set_cancelled (c :: cancelled s) s)) by (eapply K_same; [| | | |exact HK]; reflexivity).
+    destruct (mem c (follows s)); [|exact G0].
+    destruct (nested p _) as [s1 e1] eqn:E1. cbn [fst snd].
+    change (ECancelled c :: e1) with ([ECancelled c] ++ e1). rewrite app_assoc. eapply nested_G; eauto.
   - (* the connection is lost *)
     destruct (up s) eqn:U.
     + destruct (lose s) as [s1 e1] eqn:E1. cbn [fst snd].
